@@ -15,20 +15,23 @@ class Undefined(Exception):
     """The statement does not define this evaluation (~ of negative / >32-bit, negative or huge shift)."""
 
 
-def evaluate(t):
+def evaluate(t, lookup=None):
+    """lookup(name) -> int for ('s', name) leaves (raises whatever it likes for unknown names)."""
     k = t[0]
     if k == "n":
         return t[1]
+    if k == "s":
+        return lookup(t[1])
     if k == "u":
-        v = evaluate(t[2])
+        v = evaluate(t[2], lookup)
         if t[1] == "-":
             return -v
         if v < 0 or v >= 1 << 32:
             raise Undefined("~ of negative or >32-bit value")
         bits = 8 if v < 1 << 8 else 16 if v < 1 << 16 else 32
         return (~v) & ((1 << bits) - 1)
-    a = evaluate(t[2])
-    b = evaluate(t[3])
+    a = evaluate(t[2], lookup)
+    b = evaluate(t[3], lookup)
     op = t[1]
     if op == "*":
         return a * b
@@ -77,6 +80,8 @@ def render(t, style="min", sp=""):
         k = t[0]
         if k == "n":
             return par(t[2]) if style == "full" else t[2]
+        if k == "s":
+            return par(t[1]) if style == "full" else t[1]
         if k == "u":
             c = t[2]
             s = go(c)
@@ -166,3 +171,24 @@ def trees(nbin, max_un, leaves):
         for ops in itertools.product(BINOPS, repeat=nbin):
             for un in unary_placements(nn, max_un):
                 yield build(sk, ops, leaves[: nbin + 1], un)
+
+
+def names(t, acc=None):
+    """Symbol names mentioned by an expression tree."""
+    acc = [] if acc is None else acc
+    if t[0] == "s":
+        acc.append(t[1])
+    elif t[0] == "u":
+        names(t[2], acc)
+    elif t[0] == "b":
+        names(t[2], acc)
+        names(t[3], acc)
+    return acc
+
+
+def num(v, text=None):
+    return ("n", v, text if text is not None else (hex(v) if v >= 10 else str(v)))
+
+
+def sym(name):
+    return ("s", name)
